@@ -9,6 +9,7 @@ import TantivyModel.Proofs.TermInfoStore
 import TantivyModel.Proofs.BitPacker4x
 import TantivyModel.Proofs.BlockCursor
 import TantivyModel.Proofs.Pipeline
+import TantivyModel.Proofs.JsonPositions
 /-!
 # C07 — The inverted index records exactly the terms, documents, frequencies, positions
 
@@ -205,6 +206,35 @@ theorem C07_invert_pipeline (o : RecOpt) (c : Corpus) (G : Recorder.GoodCorpus c
     intro d _
     simp [Recorder.docTokenCount_eq]
 
+/-! ### JSON fields: per-path positions -/
+
+/-- **Per path, a JSON field is a multi-valued text field.**  For one (document, JSON field) —
+the position map starts empty for each, as the extracted guard on `index_document` records — the
+text occurrences of any path `p` are exactly `docOccs` of the list of `p`'s text leaves in
+traversal order (same `index_text` arithmetic, same position gap), whatever other paths and typed
+leaves are interleaved; typed leaves (numbers, bools, dates) are subscribed at position 0. -/
+theorem C07_json_positions_per_path (p : Term) (evs : List JsonPositions.JEvent) :
+    (((JsonPositions.occs Gen.Postings.POSITION_GAP evs).filter (fun o => o.text ∧ o.path = p)).map
+        (fun o => (o.term, o.pos)) =
+      docOccs Gen.Postings.POSITION_GAP (JsonPositions.pathValues p evs)) ∧
+    (∀ o ∈ JsonPositions.occs Gen.Postings.POSITION_GAP evs, o.text = false → o.pos = 0) := by
+  have _tie : Gen.Postings.JSON_POSITIONS_CLEARED_PER_FIELD = 1 ∧ Gen.Postings.INDEX_TEXT_SHAPE_OK = 1 := by
+    decide
+  exact ⟨JsonPositions.occsFrom_path _ p evs (fun _ => 0),
+    JsonPositions.occsFrom_nontext_pos _ evs (fun _ => 0)⟩
+
+/-- **Consecutive values are separated by the gap** (text fields and, by the theorem above, the
+leaves of one JSON path): in `A ++ v :: B` every token of `v` is indexed at
+`endAfter A + token.pos`, and every occurrence of every later value lies beyond it by at least the
+token's position length plus `gap` — so a phrase cannot span two values when `gap ≥ 1`. -/
+theorem C07_values_gap_separated (gap e : Nat) (A : List Value) (v : Value) (B : List Value) :
+    docOccsFrom gap e (A ++ v :: B) =
+      docOccsFrom gap e A ++ v.map (fun t => (t.term, JsonPositions.endAfter gap e A + t.pos)) ++
+        docOccsFrom gap (indexValue gap (JsonPositions.endAfter gap e A) v).2 B ∧
+    ∀ t ∈ v, ∀ o ∈ docOccsFrom gap (indexValue gap (JsonPositions.endAfter gap e A) v).2 B,
+      JsonPositions.endAfter gap e A + t.pos + t.posLen + gap ≤ o.2 :=
+  JsonPositions.values_gap_separated gap e A v B
+
 /-! ### recycled block cursor -/
 
 /-- **reset ≡ fresh open.** For every prior state `p` of a block cursor (any term read before,
@@ -341,6 +371,10 @@ example : Recorder.GoodCorpus [[[⟨[97], 0, 1⟩]], []] := by
     simp [postingsOf, postingsFrom, docOccs, docOccsFrom, indexValue] at hp
     subst hp; simp
   · simp [postingsOf, postingsFrom, docOccs, docOccsFrom, indexValue, h] at hp
+example : JsonPositions.occs 1 [⟨[97], true, [⟨[1], 0, 1⟩, ⟨[2], 1, 1⟩]⟩, ⟨[98], true, [⟨[3], 0, 1⟩]⟩,
+    ⟨[97], false, [⟨[9], 0, 1⟩]⟩, ⟨[97], true, [⟨[1], 0, 1⟩]⟩] =
+    [⟨[97], true, [1], 0⟩, ⟨[97], true, [2], 1⟩, ⟨[98], true, [3], 0⟩, ⟨[97], false, [9], 0⟩, ⟨[97], true, [1], 3⟩] := by
+  decide
 example : 0 < TermInfoStore.BLOCK_LEN ∧ TermInfoStore.BLOCK_LEN = 256 := by decide
 theorem C07_terminfo_example_good :
     TermInfoStore.GoodStore 2 [⟨512, 51, 57, 110, 134⟩, ⟨3, 57, 60, 134, 134⟩, ⟨9, 70, 100, 140, 150⟩] := by
